@@ -84,6 +84,32 @@ pub fn requests(secret: &str) -> Vec<(String, WireReq, String, Cfg)> {
         w.uri = format!("{}?X-Amz-Signature={}", w.uri, sig);
         out.push(("header-carrier-signature-also-in-query".to_string(), w, sig, cfg));
     }
+    // other request shapes (what the request looks like must not matter either): a Host value with a port, a
+    // session token with many signed headers and an absolute-form target, a folded form body
+    out.push(mk("get-host-with-port", &|p| {
+        p.headers = vec![("Host".into(), b"example.amazonaws.com:8443".to_vec())];
+    }));
+    out.push(mk("get-token-many-headers", &|p| {
+        p.token = Some("SESSION/token+1=".into());
+        for i in 0..12 {
+            p.headers.push((format!("X-Amz-Meta-{:02}", i), format!("value {}", i).into_bytes()));
+            p.signed.push(format!("x-amz-meta-{:02}", i));
+        }
+        p.signed.push("x-amz-security-token".into());
+        p.url_params = vec![(b"a".to_vec(), b"1".to_vec()), (b"a".to_vec(), b"0".to_vec())];
+    }));
+    {
+        let (_, mut w, sig, mut cfg) = mk("post-form", &|p| {
+            p.method = "POST".into();
+            p.body = b"fa=1&fb=x+y".to_vec();
+            p.body_params = Some(vec![(b"fa".to_vec(), b"1".to_vec()), (b"fb".to_vec(), b"x y".to_vec())]);
+            p.headers.push(("Content-Type".into(), b"application/x-www-form-urlencoded".to_vec()));
+            p.signed.push("content-type".into());
+        });
+        cfg.fold = true;
+        w.uri = format!("http://example.amazonaws.com:80{}", w.uri);
+        out.push(("post-folded-form-absolute-target".to_string(), w, sig, cfg));
+    }
     out
 }
 
@@ -538,14 +564,14 @@ pub fn run(ctx: &Ctx) -> Report {
         vec![(0, 0)]
     };
     // request shapes in which the presented signature occurs twice (see `requests`)
-    let twice_shapes: [usize; 3] = [3, 4, 5];
+    let twice_shapes: [usize; 6] = [3, 4, 5, 6, 7, 8];
     // 0..63 only position p wrong; 64..127 positions p.. wrong; 128..191 only p wrong, written in upper case
     let variants: Vec<usize> = if thorough { (0..192).collect() } else { (0..64).chain((128..192).step_by(8)).collect() };
     // split each group's variants over worker processes
     let workers = 16usize;
     // leave worker slots for the Debug-logger jobs (2) and the signature-twice shapes (3) so that everything runs
     // in one wave
-    let per_group = if thorough { ((workers - 6) / groups.len()).max(1) } else { 10 };
+    let per_group = if thorough { ((workers - 9) / groups.len()).max(1) } else { 8 };
     let mut jobs: Vec<(usize, usize, Vec<usize>, u8)> = Vec::new(); // last: 0 plain, 1 Debug logger, 2 builder-made authenticator
     for (si, ri) in &groups {
         let chunk = (variants.len() + per_group - 1) / per_group;
@@ -667,7 +693,7 @@ pub fn run(ctx: &Ctx) -> Report {
     Report {
         stats: st,
         rule: format!(
-            "for each of {} (request, key) groups ({}): wrong signatures of the correct length — only position p wrong for every p in 0..63{} — substituted within the character's class (digit->digit, letter->letter), in lower case and (every 8th position in quick, all in thorough) with the letters in upper case, each family compared with its own all-wrong reference; the lower-case family is traced again with a logger installed at Debug level that formats every record; three further request shapes carry the presented signature twice (a repeated X-Amz-Signature parameter, a repeated Signature= field, a stray X-Amz-Signature query parameter next to header authentication; positions 0, 13, 26, 39, 52, 63 in quick, all positions and both secrets in thorough); the refusal is also traced on an authenticator assembled by hand through the unstable builder with validate_signature called directly; each is validated in a forked child of a warmed-up tracer (the genuine request accepted once, then 14 wrong signatures refused for the same access key) of a single-threaded tracer (ship-profile build, logger off unless stated, byte-wise early-exit memcmp/bcmp linked in) and single-stepped (the child sets the processor's trap flag around the call and a SIGTRAP handler sees every instruction; a ptrace stepper is kept as a fallback, VH_C07_PTRACE=1) from just before to just after sigv4_validate_request; every trace must have the same length and the same RIP-sequence hash as the group's reference trace (all 64 characters wrong), which is itself traced twice to prove the apparatus deterministic. states = distinct (group, trace hash); transitions = machine instructions stepped",
+            "for each of {} (request, key) groups ({}): wrong signatures of the correct length — only position p wrong for every p in 0..63{} — substituted within the character's class (digit->digit, letter->letter), in lower case and (every 8th position in quick, all in thorough) with the letters in upper case, each family compared with its own all-wrong reference; the lower-case family is traced again with a logger installed at Debug level that formats every record; six further request shapes — three carry the presented signature twice (a repeated X-Amz-Signature parameter, a repeated Signature= field, a stray X-Amz-Signature query parameter next to header authentication), three vary the request (Host with a port; session token, twelve more signed headers and a repeated query parameter; folded form body behind an absolute-form target; positions 0, 13, 26, 39, 52, 63 in quick, all positions and both secrets in thorough); the refusal is also traced on an authenticator assembled by hand through the unstable builder with validate_signature called directly; each is validated in a forked child of a warmed-up tracer (the genuine request accepted once, then 14 wrong signatures refused for the same access key) of a single-threaded tracer (ship-profile build, logger off unless stated, byte-wise early-exit memcmp/bcmp linked in) and single-stepped (the child sets the processor's trap flag around the call and a SIGTRAP handler sees every instruction; a ptrace stepper is kept as a fallback, VH_C07_PTRACE=1) from just before to just after sigv4_validate_request; every trace must have the same length and the same RIP-sequence hash as the group's reference trace (all 64 characters wrong), which is itself traced twice to prove the apparatus deterministic. states = distinct (group, trace hash); transitions = machine instructions stepped",
             groups.len(),
             if thorough { "GET vanilla, POST body, query carrier x 2 secrets" } else { "GET vanilla, first secret" },
             if thorough { ", and positions p..63 all wrong for every p" } else { "" }
